@@ -16,7 +16,7 @@ ASSUMPTIONS = [
     "reduction to a 1-D integral over h=w'x+w0 (x|h is Gaussian) with a break at h=0; Dx=2 with two units (smooth links) -> tensor "
     "Gauss-Hermite at 40 and 56 nodes per dimension (unconverged cases excluded)",
     "ln p(y|x) itself uses the covariance AA' + A_k diag(link(h)) A_k' inverted by numpy (not the library's precision)",
-    "inequality judged with 1e-7*max(1,|truth|) slack; tightness by the decay ratio gap(eps/10) <= gap(eps)/30 + 1e-7",
+    "inequality judged with 1e-7*max(1,|truth|) slack; tightness by the decay ratio gap(eps/10) <= gap(eps)/30 + 1e-7*max(1,|truth|)",
 ]
 
 
@@ -290,7 +290,7 @@ def _run_tight(case):
             quad, logdet = _gauss_terms(kind, A, Dk, W0[:, 0][None], e[None], extra_cov=M @ Sig @ M.T)
             tv = -0.5 * (quad[0] + logdet[0] + len(y) * oracle.LN2PI)
             check(fails, f"tight[{kind}]:zero_weight_gap", lbv, tv, 1.0 + abs(tv), tol=1e-7, **kf)
-    gaps = {}
+    gaps, tmag = {}, 1.0
     for eps in (1e-1, 1e-2, 1e-3):
         ok, r = lib(fails, f"tight[{kind}].eps", lambda: gap_at(eps))
         if not ok:
@@ -305,6 +305,7 @@ def _run_tight(case):
             fails.append(Failure("excluded:oracle_unconverged", f"quadrature error {t[1]:.2e}"))
             return fails
         gaps[eps] = t[0] - lbv
+        tmag = max(tmag, abs(t[0]))
     for eps in (1e-1, 1e-2):
         g1, g2 = gaps[eps], gaps[eps / 10]
         if kind == "relu":
@@ -315,8 +316,9 @@ def _run_tight(case):
             if np.any(np.abs(mh) < 4 * sh):
                 fails.append(Failure("excluded:relu_kink_in_mass", f"eps={eps}"))
                 continue
-        # absolute slack 1e-7: the variational parameters come from a fixed-point iteration stopped at 1e-5
-        if g2 > max(g1, 0.0) / 30.0 + 1e-7:
+        # slack 1e-7 relative to the size of the value (as in the bound sub-check): bound and truth are each accurate to
+        # ~1e-8 of their magnitude, and the variational parameters come from a fixed-point iteration stopped at 1e-5
+        if g2 > max(g1, 0.0) / 30.0 + 1e-7 * tmag:
             fails.append(Failure(f"tight[{kind}]:decay", f"{kind}: gap({eps/10:g})={g2:.3e} is not <= gap({eps:g})/30={g1/30:.3e}", gaps={str(k): v for k, v in gaps.items()}, **kf))
     return fails
 
